@@ -106,6 +106,10 @@ LoadNamed(selfDestructs, got, ran, found) ==
   /\ IF selfDestructs THEN ~got /\ ~ran /\ ~found ELSE got /\ ran /\ found
   /\ UNCHANGED <<alive, env, stk>>
 
+\* loading a program whose parent is not loaded yet, the parent's create() loading the same child by name in the meantime:
+\* the name still stands for exactly one live object, the one the load hands out
+LoadInherit(got, same, copies) == got /\ same /\ copies = 1 /\ UNCHANGED <<alive, env, stk>>
+
 Forest == \A o \in alive : o \notin Ancestors(o) /\ (env[o] # None => env[o] \in alive)
 DeadClean == \A o \in Names \ alive : env[o] = None
 =============================================================================
